@@ -83,6 +83,9 @@ func init() {
 	addProp(&propCfg{id: "C17", quick: tierCfg{6000, 60, 25}, thorough: tierCfg{400000, 900, 200}})
 	addProp(&propCfg{id: "C18", quick: tierCfg{6000, 60, 25}, thorough: tierCfg{400000, 900, 200}})
 	addProp(&propCfg{id: "C19", quick: tierCfg{6000, 60, 25}, thorough: tierCfg{400000, 600, 200}})
+	addProp(&propCfg{id: "C02", quick: tierCfg{4000, 60, 25}, thorough: tierCfg{300000, 900, 200}})
+	addProp(&propCfg{id: "C03", quick: tierCfg{4000, 60, 25}, thorough: tierCfg{300000, 900, 200}})
+	addProp(&propCfg{id: "C12", quick: tierCfg{4000, 60, 25}, thorough: tierCfg{300000, 900, 200}})
 	addProp(&propCfg{id: "C16", race: true, quick: tierCfg{1500, 75, 50}, thorough: tierCfg{100000, 1200, 400}})
 	addProp(&propCfg{id: "C15", quick: tierCfg{4000, 60, 25}, thorough: tierCfg{400000, 900, 200}})
 }
